@@ -3,8 +3,10 @@ package props
 import (
 	"fmt"
 	"math"
+	"reflect"
 
 	"github.com/cinar/indicator/v2/asset"
+	"github.com/cinar/indicator/v2/helper"
 	"github.com/cinar/indicator/v2/strategy"
 	"github.com/cinar/indicator/v2/strategy/compound"
 	"github.com/cinar/indicator/v2/strategy/decorator"
@@ -156,14 +158,60 @@ func baseStrats(ctx *run.Ctx, nrand int) []namedStrat {
 		for ci, cfg := range cfgs {
 			cfg := cfg
 			w := row.Warm(row.New(cfg))
-			out = append(out, namedStrat{
-				Name: fmt.Sprintf("%s cfg%d=%v", row.Name, ci, cfg),
-				New:  func() strategy.Strategy { return row.New(cfg) },
-				Warm: w, Quiet: w, Row: row, Cfg: cfg,
-			})
+			mk := func() strategy.Strategy { return row.New(cfg) }
+			name := fmt.Sprintf("%s cfg%d=%v", row.Name, ci, cfg)
+			if ci%2 == 1 && allExported(row.New(cfg)) {
+				// Same configuration reached the other way: construct with the
+				// defaults, then set every public field (anything cached at
+				// construction time would now be stale).
+				used := ci%4 == 3
+				mk = func() strategy.Strategy {
+					d := row.New(row.Default)
+					if used {
+						// ... after the instance has already served a (short) series
+						helper.Drain(d.Compute(helper.SliceToChan(reg.Snaps(gen.Bars(gen.New(1, "warm"), gen.Walk, 7)))))
+					}
+					copyExported(d, row.New(cfg))
+					return d
+				}
+				name += " (set through public fields)"
+				if used {
+					name += " (after a first use)"
+				}
+			}
+			out = append(out, namedStrat{Name: name, New: mk, Warm: w, Quiet: w, Row: row, Cfg: cfg})
 		}
 	}
 	return out
+}
+
+// allExported reports whether a strategy value is a pointer to a struct with
+// at least one exported field. On the pinned tree every base strategy holds
+// its whole configuration in exported fields; an unexported field that a
+// later change adds (a cache, say) is deliberately NOT copied: reaching the
+// configuration through the public fields is exactly what must keep working.
+func allExported(s strategy.Strategy) bool {
+	v := reflect.ValueOf(s)
+	if v.Kind() != reflect.Ptr || v.Elem().Kind() != reflect.Struct {
+		return false
+	}
+	t := v.Elem().Type()
+	for i := 0; i < t.NumField(); i++ {
+		if t.Field(i).IsExported() {
+			return true
+		}
+	}
+	return false
+}
+
+// copyExported assigns every exported field of src to dst (same type).
+func copyExported(dst, src strategy.Strategy) {
+	d, s := reflect.ValueOf(dst).Elem(), reflect.ValueOf(src).Elem()
+	for i := 0; i < d.NumField(); i++ {
+		if d.Type().Field(i).IsExported() {
+			d.Field(i).Set(s.Field(i))
+		}
+	}
 }
 
 // compoundStrats builds And/Or/Majority/Split/MacdRsi and the decorators over
